@@ -148,6 +148,34 @@ YamlWords == {
   <<49, 101, 45, 51>>,   \* '1e-3'
   <<49, 46, 53>>,   \* '1.5'
   <<49, 46, 53, 101, 51>>,   \* '1.5e3'
+  <<45, 49, 46, 53, 101, 45, 51>>,   \* '-1.5e-3'
+  <<45, 48, 46, 48, 101, 45, 48>>,   \* '-0.0e-0'
+  <<45, 50, 46, 53, 69, 45, 55>>,   \* '-2.5E-7'
+  <<43, 49, 46, 53, 101, 43, 51>>,   \* '+1.5e+3'
+  <<45, 49, 101, 45, 51>>,   \* '-1e-3'
+  <<49, 46, 53, 101, 45, 51>>,   \* '1.5e-3'
+  <<45, 49, 46, 53, 101, 51>>,   \* '-1.5e3'
+  <<49, 101, 43, 51>>,   \* '1e+3'
+  <<45, 46, 53, 101, 45, 49>>,   \* '-.5e-1'
+  <<49, 95, 48, 46, 53, 101, 45, 49>>,   \* '1_0.5e-1'
+  <<45, 49, 45, 49>>,   \* '-1-1'
+  <<49, 46, 53, 101, 45, 45, 51>>,   \* '1.5e--3'
+  <<45, 49, 46, 53, 101, 45, 51, 120>>,   \* '-1.5e-3x'
+  <<45, 45, 49, 46, 53, 101, 51>>,   \* '--1.5e3'
+  <<48, 120, 45, 49>>,   \* '0x-1'
+  <<45, 48, 120, 49, 70>>,   \* '-0x1F'
+  <<45, 48, 98, 49>>,   \* '-0b1'
+  <<45, 48, 111, 55>>,   \* '-0o7'
+  <<43, 48, 120, 49, 70>>,   \* '+0x1F'
+  <<49, 46, 53, 101>>,   \* '1.5e'
+  <<49, 46, 53, 101, 45>>,   \* '1.5e-'
+  <<46, 101, 51>>,   \* '.e3'
+  <<45, 46>>,   \* '-.'
+  <<43, 46>>,   \* '+.'
+  <<45, 49, 95, 48, 48, 48>>,   \* '-1_000'
+  <<49, 95, 95, 48>>,   \* '1__0'
+  <<46, 53, 101, 51>>,   \* '.5e3'
+  <<53, 46, 101, 51>>,   \* '5.e3'
   <<46, 53>>,   \* '.5'
   <<45, 46, 53>>,   \* '-.5'
   <<53, 46>>,   \* '5.'
